@@ -31,8 +31,10 @@ type JobC struct {
 
 type CaseC struct {
 	Producers [][]JobC `json:"producers"`
-	Pre       int      `json:"pre"`    // tasks queued before the goroutines start
-	CYield    int      `json:"cyield"` // scheduler yields of the consumer between check-ins
+	Pre       int      `json:"pre"`               // tasks queued before the goroutines start
+	CYield    int      `json:"cyield"`            // scheduler yields of the consumer between check-ins
+	Pivot     int      `json:"pivot,omitempty"`   // 0: the tasks are for the directly connected agent; 1-2: for a pivot agent at that depth below it
+	PivotID   uint32   `json:"pivotid,omitempty"` // id of the target pivot agent
 }
 
 func genC(t *rapid.T) CaseC {
@@ -52,6 +54,10 @@ func genC(t *rapid.T) CaseC {
 	}
 	c.Pre = rapid.IntRange(0, 4).Draw(t, "pre")
 	c.CYield = rapid.IntRange(0, 6).Draw(t, "cyield")
+	c.Pivot = agentfx.Weighted(t, "pivot", 3, 1, 1)
+	if c.Pivot > 0 {
+		c.PivotID = genIDA(t, map[uint32]bool{0x0a0b0001: true, 0x0a0b0102: true})
+	}
 	return c
 }
 
@@ -76,11 +82,19 @@ var lastC obsC
 
 func checkC(c CaseC) *core.Violation {
 	lastC = obsC{}
-	w, err := newWorld(1)
+	ids, parents := []uint32{0x0a0b0001}, []int{-1}
+	if c.Pivot >= 2 {
+		ids, parents = append(ids, 0x0a0b0102), append(parents, 0)
+	}
+	if c.Pivot >= 1 {
+		ids, parents = append(ids, c.PivotID), append(parents, len(ids)-1)
+	}
+	w, err := newForest(ids, parents)
 	if err != nil {
 		return core.V("harness|fixture", "%v", err)
 	}
-	a := w.ses[0].A
+	a := w.ses[len(ids)-1].A // the agent the tasks are queued for; check-ins happen at agent 0
+	via := w.via(len(ids) - 1)
 	spec := map[uint32]JobC{}
 	enq := 0
 	// the pre-queued tasks belong to an extra producer index (sequential, before the start)
@@ -183,6 +197,12 @@ func checkC(c CaseC) *core.Violation {
 	seen := map[uint32]int{}
 	lastSeq := map[int]int{}
 	for i, t := range delivered {
+		if len(via) > 1 {
+			var uv *core.Violation
+			if t, uv = unwrapFor("c", via, t, -1); uv != nil {
+				return uv
+			}
+		}
 		d := &demonref.Dec{B: t.Body}
 		d.Int32()
 		id := d.Int32()
@@ -237,7 +257,7 @@ func classifyC(c CaseC) core.Class {
 			}
 		}
 	}
-	cl.Labels = append(cl.Labels, fmt.Sprintf("producers:%d", len(c.Producers)), fmt.Sprintf("overlap:%d", o.overlap), "jobs:"+bucketC(total))
+	cl.Labels = append(cl.Labels, fmt.Sprintf("target-pivot-depth:%d", c.Pivot), fmt.Sprintf("producers:%d", len(c.Producers)), fmt.Sprintf("overlap:%d", o.overlap), "jobs:"+bucketC(total))
 	if relay {
 		cl.Labels = append(cl.Labels, "path:relay")
 	}
@@ -248,7 +268,7 @@ func classifyC(c CaseC) core.Class {
 		cl.Labels = append(cl.Labels, "multi-task-reply")
 	}
 	cl.NonTrivial = o.overlap >= 2
-	cl.Fingerprint = fmt.Sprintf("p=%d|ov=%d|relay=%v|op=%v|pre=%v|jobs=%s", len(c.Producers), o.overlap, relay, oper, c.Pre > 0, bucketC(total))
+	cl.Fingerprint = fmt.Sprintf("pd=%d|p=%d|ov=%d|relay=%v|op=%v|pre=%v|jobs=%s", c.Pivot, len(c.Producers), o.overlap, relay, oper, c.Pre > 0, bucketC(total))
 	return cl
 }
 
@@ -268,7 +288,7 @@ func TestC04c(t *testing.T) {
 	big()
 	core.Run(t, core.Spec[CaseC]{
 		Property: "C04", Sub: "c",
-		Rule: "concurrent programs: 1-4 producer goroutines with 1-40 generated jobs each (operator path with request ids / relay path with request id 0 / mixed, 0-200 data bytes, 0-12 scheduler yields x a per-producer pace of 1/8/40/150 before each AddJobToQueue), 0-4 tasks queued beforehand, one consumer doing check-ins through the real endpoint until all producers finished and the queue drained to a no-job reply; run under the race detector. Oracle: every delivered task is a queued one, none twice, none missing, per-producer order kept; race reports with a Havoc frame are violations (driver). Non-trivial: at least 2 producers were running both before and after some check-in (observed); distinct = (#producers, observed overlap, paths used, pre-queued, job-count bucket)",
+		Rule: "concurrent programs (in 2 of 5 the tasks are for a pivot agent at depth 1-2 with an id from the whole 32-bit range, and are unwrapped from the directly connected agent's check-ins): 1-4 producer goroutines with 1-40 generated jobs each (operator path with request ids / relay path with request id 0 / mixed, 0-200 data bytes, 0-12 scheduler yields x a per-producer pace of 1/8/40/150 before each AddJobToQueue), 0-4 tasks queued beforehand, one consumer doing check-ins through the real endpoint until all producers finished and the queue drained to a no-job reply; run under the race detector. Oracle: every delivered task is a queued one, none twice, none missing, per-producer order kept; race reports with a Havoc frame are violations (driver). Non-trivial: at least 2 producers were running both before and after some check-in (observed); distinct = (#producers, observed overlap, paths used, pre-queued, job-count bucket)",
 		Gen:  genC, Check: checkC, Classify: classifyC,
 		Assumptions: []string{"interleavings are sampled, not enumerated: the Go scheduler decides; the race detector turns unsynchronised access into a schedule-independent signal"},
 	})
